@@ -341,3 +341,103 @@ pub fn explore(
     }
     Explored::Equiv(pairs.len())
 }
+
+/// Is the language sequentially output-deterministic (the condition under which
+/// `Regex::to_automaton` accepts to compile)? `None` = budget exceeded.
+pub fn output_deterministic(
+    r: &Rx,
+    reps: &[u8],
+    ms: &[usize],
+    max_states: usize,
+    max_size: usize,
+) -> Option<bool> {
+    use std::collections::HashMap;
+    let mut states: Vec<Rx> = vec![norm(r)];
+    let mut idx: HashMap<Rx, usize> = HashMap::new();
+    idx.insert(states[0].clone(), 0);
+    let mut succ: Vec<Vec<usize>> = vec![];
+    let mut i = 0;
+    while i < states.len() {
+        let t = states[i].clone();
+        if size(&t) > max_size || states.len() > max_states {
+            return None;
+        }
+        let mut row = vec![];
+        for b in reps {
+            for m in ms {
+                let d = deriv(*b, *m, &t);
+                let k = match idx.get(&d) {
+                    Some(k) => *k,
+                    None => {
+                        idx.insert(d.clone(), states.len());
+                        states.push(d);
+                        states.len() - 1
+                    }
+                };
+                row.push(k);
+            }
+        }
+        succ.push(row);
+        i += 1;
+    }
+    let n = states.len();
+    let mut live: Vec<bool> = states.iter().map(nullable).collect();
+    loop {
+        let mut changed = false;
+        for i in 0..n {
+            if !live[i] && succ[i].iter().any(|k| live[*k]) {
+                live[i] = true;
+                changed = true;
+            }
+        }
+        if !changed {
+            break;
+        }
+    }
+    for i in 0..n {
+        if !live[i] {
+            continue;
+        }
+        for bi in 0..reps.len() {
+            let c = (0..ms.len()).filter(|mi| live[succ[i][bi * ms.len() + mi]]).count();
+            if c >= 2 {
+                return Some(false);
+            }
+        }
+    }
+    Some(true)
+}
+
+/// Class representatives of the bytes w.r.t. the `Single` sets of a tree.
+pub fn tree_byte_classes(t: &VerifRegexTree) -> Vec<u8> {
+    fn masks(t: &VerifRegexTree, out: &mut Vec<[u64; 4]>) {
+        match t {
+            VerifRegexTree::Single(letters) => {
+                let mut by: std::collections::BTreeMap<usize, [u64; 4]> = Default::default();
+                for (b, m) in letters {
+                    by.entry(*m).or_insert([0; 4])[(*b as usize) / 64] |=
+                        1u64 << ((*b as usize) % 64);
+                }
+                out.extend(by.into_values());
+            }
+            VerifRegexTree::Concat(v) | VerifRegexTree::Union(v) | VerifRegexTree::Inter(v) => {
+                v.iter().for_each(|x| masks(x, out))
+            }
+            VerifRegexTree::Star(_, r) | VerifRegexTree::Complement(r) => masks(r, out),
+        }
+    }
+    let mut ms = vec![];
+    masks(t, &mut ms);
+    ms.sort();
+    ms.dedup();
+    let mut seen = std::collections::BTreeSet::new();
+    let mut reps = vec![];
+    for b in 0..=255u8 {
+        let sig: Vec<bool> =
+            ms.iter().map(|m| (m[(b as usize) / 64] >> ((b as usize) % 64)) & 1 == 1).collect();
+        if seen.insert(sig) {
+            reps.push(b);
+        }
+    }
+    reps
+}
